@@ -134,7 +134,17 @@ pub fn gen_spec(rng: &mut Rng, kind: u64, quick: bool) -> PackSpec {
             let c = rng.low_entropy(4 * 1024 * 1024 - 1);
             let small = rng.bytes(100);
             let hint = *rng.pick(&[Hint::No, Hint::Yes]);
-            for d in [&small, &a, &b, &a, &c, &small, &b, &c, &a] {
+            // … and on different contents which share everything up to the threshold: same size with
+            // another tail, and one content extended by a few bytes
+            let mut b2 = b.clone();
+            let last = b2.len() - 1;
+            b2[last] ^= 0x5a;
+            b2[4 * 1024 * 1024] ^= 0x01;
+            let mut a3 = a.clone();
+            a3.push(7);
+            let mut b3 = b.clone();
+            b3.extend_from_slice(b"tail");
+            for d in [&small, &a, &b, &a, &c, &small, &b, &c, &a, &b2, &a3, &b3, &b2] {
                 items.push(CItem { data: d.clone(), hint, src: src_of(rng) });
             }
         }
